@@ -2894,6 +2894,18 @@ class PE:
                         A = self.tidy(list(A) + rest)
                     out.extend(self._mk_if(e[1], A, B))
                     return out
+                if len(rest) == 1 and rest[0][0] == 'exit' and rest[0][1] in ('end', 'return') and not ta and not tb and (A or B):
+                    # `if c: A else: B` followed by one exit whose value / final state still chooses on c: the exit belongs to
+                    # each branch with its own value (the form an early `return` in one of the branches produces)
+                    ex = rest[0]
+                    cc = e[1]
+                    ites = [x for x in walk(ex) if x[0] == 'ite' and len(x) == 4 and x[1] == cc]
+                    if ites:
+                        ea_ = substitute(ex, {x: x[2] for x in ites}, self.opts)
+                        eb_ = substitute(ex, {x: x[3] for x in ites}, self.opts)
+                        if ea_ != eb_ and ea_[0] == 'exit' and eb_[0] == 'exit':
+                            out.extend(self._mk_if(cc, self.tidy(list(A) + [ea_]), self.tidy(list(B) + [eb_])))
+                            return out
                 new = self._mk_if(e[1], A, B)
                 if rest and new and new[-1][0] == 'if' and new[-1] != ('if', e[1], tuple(A), tuple(B)) \
                         and self._terminated(new[-1][2]) != self._terminated(new[-1][3]):
